@@ -2,6 +2,8 @@ import SC.Proofs.KernGen
 import SC.Proofs.RIndex
 import SC.Proofs.RSuffix
 import SC.Proofs.RIndexAny6
+import SC.Proofs.KernBridge
+import SC.Properties.C13
 /-!
 # C14 — results do not depend on the CPU features or backend the build selects
 
@@ -39,6 +41,44 @@ theorem search_backend_free (cfg : A.Cfg) (n a : Bool) (s sub : Bytes) :
     A.IndexAny { cfg with native := n, arm64 := a } s sub = A.IndexAny cfg s sub ∧
     A.LastIndexAny { cfg with native := n, arm64 := a } s sub = A.LastIndexAny cfg s sub := by
   simp only [A.LastIndex_eq, A.Count_eq, A.Cut_eq, A.IndexAny_eq, A.LastIndexAny_eq, and_self]
+
+/-- **all backends compute the same function of the argument.**  When the memory holds the byte string `s`, the SSE and
+    the AVX2 block loops of the search kernels (any of the three bodies, geometry extracted from the source), the `len < 16`
+    path, the portable Go loop, and the scalar definition the algorithm model calls all return the same index; the SSE and
+    AVX2 counting loops, the small counting path, the portable Go count and the no-POPCNT fall-back all return the same count. -/
+theorem backends_agree (s : Bytes) (c : UInt8) (mem : Mem) (base : Nat) (h : Holds mem base s) :
+    (∀ P, (P = C13.sse16 ∨ P = C13.avx32) → P.width ≤ s.length →
+        (idxLoop P (S.byteEqFold c) mem base s.length (s.length + 1) 0).1 = S.kernIndexByte s c) ∧
+    (s.length < 16 → (small (S.byteEqFold c) mem base s.length).1 = S.kernIndexByte s c) ∧
+    genIndexByte s c = S.kernIndexByte s c ∧
+    (∀ P, (P = C13.sse16 ∨ P = C13.avx64) → P.width ≤ s.length →
+        (cntLoop P (S.byteEqFold c) mem base s.length (s.length + 1) 0 0).1 = S.kernCount s c) ∧
+    (s.length < 16 → (cntSmall (S.byteEqFold c) mem base s.length).1 = S.kernCount s c) ∧
+    genCount s c = S.kernCount s c := by
+  have hi := specIndex_list (S.byteEqFold c) mem base s h
+  have hc := specCount_list (S.byteEqFold c) mem base s h
+  refine ⟨?_, ?_, genIndexByte_eq s c, ?_, ?_, genCount_eq s c⟩
+  · intro P hP hw
+    rw [(C13.search_loops P hP _ mem base s.length hw).1, hi]; rfl
+  · intro hl
+    rw [C13.small_is_scalar _ mem base s.length hl, hi]; rfl
+  · intro P hP hw
+    rw [(C13.count_loops P hP _ mem base s.length hw).1, hc]; rfl
+  · intro hl
+    rw [(C13.count_small _ mem base s.length hl).1, hc]; rfl
+
+/-- the same for the non-ASCII scan -/
+theorem backends_agree_nonascii (s : Bytes) (mem : Mem) (base : Nat) (h : Holds mem base s) :
+    (∀ P, (P = C13.sse16 ∨ P = C13.avx32) → P.width ≤ s.length →
+        (idxLoop P (fun b => decide (b ≥ 0x80)) mem base s.length (s.length + 1) 0).1 = S.indexNonASCII s) ∧
+    (s.length < 16 → (small (fun b => decide (b ≥ 0x80)) mem base s.length).1 = S.indexNonASCII s) ∧
+    genIndexNonASCII s 0 = S.indexNonASCII s := by
+  have hi := specIndex_list (fun b => decide (b ≥ 0x80)) mem base s h
+  refine ⟨?_, ?_, genIndexNonASCII_eq s 0⟩
+  · intro P hP hw
+    rw [(C13.search_loops P hP _ mem base s.length hw).1, hi]; rfl
+  · intro hl
+    rw [C13.small_is_scalar _ mem base s.length hl, hi]; rfl
 
 example : genIndexByte [0x78, 0x4B, 0x6B] 0x6B = 1 ∧ genCount [0x78, 0x4B, 0x6B] 0x6B = 2 := by decide +kernel
 end C14
